@@ -166,9 +166,7 @@ func (w *world) open(name string) (*core.Location, error) {
 func (w *world) build(name string) (*core.Location, error) {
 	if w.engine != nil {
 		ctx := newCtx()
-		loc, err := w.engine.GetLocation(ctx, name)
-		w.engine.CachedLocations.Release(ctx, w.engine, name)
-		return loc, err
+		return w.engine.GetLocation(ctx, name)
 	}
 	st, err := w.newState(name)
 	if err != nil {
